@@ -216,6 +216,12 @@ def run(chk):
         if recorded < payload:
             chk.violation(f"value:{label.split(':')[0]}:under-accounted", f"`let x = {e};` accounts {recorded} bytes for a value whose payload is {payload} bytes",
                           dict(replay, got=r, recorded=recorded, payload=payload))
+        elif payload and label.split(':')[0] in ("int", "str") and r["size1"] - base_r["size1"] < payload:
+            # the payload of a long integer / a string lives on the heap, beside the value cell that `let x = 0` already
+            # occupies: the excess over that cell-only binding must cover it (a digit or byte count rounded DOWN shows here)
+            chk.violation(f"value:{label.split(':')[0]}:heap-under-accounted",
+                          f"`let x = {e};` accounts {r['size1'] - base_r['size1']} bytes more than `let x = 0;` (one value cell), but its heap payload is {payload} bytes",
+                          dict(replay, got=r, excess=r["size1"] - base_r["size1"], payload=payload))
         elif recorded != pred[i]:
             chk.violation(f"tie:alloc:size:{label.split(':')[0]}", f"`let x = {e};`: the runtime records {recorded} bytes, the size model says {pred[i]} "
                           f"(the value is accounted for at least its payload of {payload} bytes)", dict(replay, recorded=recorded, model=pred[i]), no_input=True)
